@@ -332,7 +332,22 @@ async fn victim_b(s: S) -> turmoil::Result {
     }
 }
 
-async fn tcp_peer(s: S, name: &'static str, start_ms: u64, tag: u8, slow_reader: bool) -> turmoil::Result {
+/// write one byte either with write_all or through the readiness API
+async fn put(st: &mut TcpStream, b: u8, readiness: bool) -> std::io::Result<()> {
+    if !readiness {
+        return st.write_all(&[b]).await;
+    }
+    loop {
+        st.writable().await?;
+        match st.try_write(&[b]) {
+            Ok(_) => return Ok(()),
+            Err(e) if e.kind() == std::io::ErrorKind::WouldBlock => continue,
+            Err(e) => return Err(e),
+        }
+    }
+}
+
+async fn tcp_peer(s: S, name: &'static str, start_ms: u64, tag: u8, slow_reader: bool, readiness: bool) -> turmoil::Result {
     tokio::time::sleep(Duration::from_millis(start_ms)).await;
     let mut round = 0u8;
     loop {
@@ -382,7 +397,7 @@ async fn tcp_peer(s: S, name: &'static str, start_ms: u64, tag: u8, slow_reader:
         let mut failed = false;
         for i in 0..3u8 {
             let id = op_start(&s, name, "write", Some(cs));
-            match st.write_all(&[tag.wrapping_add(round * 16 + i)]).await {
+            match put(&mut st, tag.wrapping_add(round * 16 + i), readiness).await {
                 Ok(()) => op_done(&s, id, "ok".into()),
                 Err(e) => {
                     op_done(&s, id, errk(&e));
@@ -431,7 +446,7 @@ async fn group_member(s: S) -> turmoil::Result {
 }
 
 /// the victim dials out: a surviving *acceptor* writes into a victim that never reads
-async fn writing_acceptor(s: S) -> turmoil::Result {
+async fn writing_acceptor(s: S, readiness: bool) -> turmoil::Result {
     let l = TcpListener::bind(("0.0.0.0", 81)).await?;
     loop {
         let id = op_start(&s, "p1", "accept", None);
@@ -445,7 +460,7 @@ async fn writing_acceptor(s: S) -> turmoil::Result {
                 i = i.wrapping_add(1);
                 // the connection was requested one step before it is accepted here
                 let id = op_start(&s2, "p1", "write", Some(cs.saturating_sub(1)));
-                match st.write_all(&[i]).await {
+                match put(&mut st, i, readiness).await {
                     Ok(()) => op_done(&s2, id, "ok".into()),
                     Err(e) => {
                         op_done(&s2, id, errk(&e));
@@ -494,7 +509,7 @@ struct Run {
     obs: Vec<String>,
 }
 
-fn run_once(work: Work, steps: usize, crash_at: Option<usize>, bounce_after: Option<usize>, second_crash_after: Option<usize>, bounce_only_at: Option<usize>, sel: usize, spawn_kind: usize) -> Run {
+fn run_once(work: Work, steps: usize, crash_at: Option<usize>, bounce_after: Option<usize>, second_crash_after: Option<usize>, bounce_only_at: Option<usize>, sel: usize, spawn_kind: usize, readiness: bool) -> Run {
     let mut b = builder(1);
     b.min_message_latency(Duration::from_millis(1)).max_message_latency(Duration::from_millis(1));
     b.tcp_capacity(if matches!(work, Work::TcpNotReading | Work::TcpVictimWrites | Work::TcpVictimDials) { 2 } else { 4 });
@@ -519,14 +534,14 @@ fn run_once(work: Work, steps: usize, crash_at: Option<usize>, bounce_after: Opt
         }
         Work::TcpVictimDials => {
             let s1 = st.clone();
-            sim.host("p1", move || writing_acceptor(s1.clone()));
+            sim.host("p1", move || writing_acceptor(s1.clone(), readiness));
         }
         Work::Idle | Work::FsRing => {}
         _ => {
             let s1 = st.clone();
-            sim.host("p1", move || tcp_peer(s1.clone(), "p1", 0, 0x10, work == Work::TcpVictimWrites));
+            sim.host("p1", move || tcp_peer(s1.clone(), "p1", 0, 0x10, work == Work::TcpVictimWrites, readiness));
             let s2 = st.clone();
-            sim.host("p2", move || tcp_peer(s2.clone(), "p2", 3, 0x40, work == Work::TcpVictimWrites));
+            sim.host("p2", move || tcp_peer(s2.clone(), "p2", 3, 0x40, work == Work::TcpVictimWrites, readiness));
         }
     }
     let (u1, u2) = (st.clone(), st.clone());
@@ -670,6 +685,7 @@ pub fn scenario(ch: &mut Chooser, thorough: bool) -> Exec {
     let at = ch.choose("fault_before_step", steps);
     let sel = ch.choose("victim_selection(name|regex-one|regex-two-hosts)", 3);
     let is_tcp = matches!(work, Work::TcpReading | Work::TcpNotReading | Work::TcpSlowAccept | Work::TcpVictimWrites);
+    let readiness = matches!(work, Work::TcpNotReading | Work::TcpVictimDials) && ch.flag("peer_writes_with_writable_and_try_write");
     let spawn_kind = if is_tcp { ch.choose("connection_handler(spawn_local|tokio::spawn|alternating)", 3) } else { 0 };
     let (crash_at, bounce_after, second, bounce_only) = match mode {
         0 => {
@@ -681,7 +697,7 @@ pub fn scenario(ch: &mut Chooser, thorough: bool) -> Exec {
             (Some(at), Some(*ch.of("bounce_after_steps", &[1usize, 3])), Some(*ch.of("second_crash_after_steps", &[1usize, 4])), None)
         }
     };
-    let run = run_once(work, steps, crash_at, bounce_after, second, bounce_only, sel, spawn_kind);
+    let run = run_once(work, steps, crash_at, bounce_after, second, bounce_only, sel, spawn_kind, readiness);
     let mut violation = run.violation;
     let mut obs = run.obs;
     let mut feats: Vec<&'static str> = vec![];
@@ -797,7 +813,7 @@ pub fn scenario(ch: &mut Chooser, thorough: bool) -> Exec {
     drop(g);
     if violation.is_none() {
         // (f) uninvolved hosts: identical to the crash-free twin
-        let twin = run_once(work, steps, None, None, None, None, 0, spawn_kind);
+        let twin = run_once(work, steps, None, None, None, None, 0, spawn_kind, readiness);
         let tl = twin.st.borrow().bystander.clone();
         if sel != 2 && twin.st.borrow().v_effects[1] != run.st.borrow().v_effects[1] {
             violation = Some(Violation::new(
@@ -822,7 +838,7 @@ pub fn scenario(ch: &mut Chooser, thorough: bool) -> Exec {
     obs.push(format!("work={work:?} ops={:?}", run.st.borrow().ops.iter().map(|o| format!("{}:{}@{}={}", o.peer, o.op, o.started, o.result.as_deref().unwrap_or("pending"))).collect::<Vec<_>>()));
     if let Some(v) = violation.as_mut() {
         v.sig = format!("{}|{:?}", v.clause, work);
-        v.scenario = format!("c04 tier={} work={work:?} crash_at={crash_at:?} bounce_after={bounce_after:?} second={second:?} bounce_only={bounce_only:?} selection={sel} handler={spawn_kind}", if thorough { "thorough" } else { "quick" });
+        v.scenario = format!("c04 tier={} work={work:?} crash_at={crash_at:?} bounce_after={bounce_after:?} second={second:?} bounce_only={bounce_only:?} selection={sel} handler={spawn_kind} readiness={readiness}", if thorough { "thorough" } else { "quick" });
         v.actions = obs.clone();
     }
     Exec { outcome: Digest::of64(&obs), violation, features: feats }
